@@ -67,6 +67,7 @@ class Machine:
         self.param = param
         self.mirror = mirror
         self.extra_summary = extra_summary
+        self.from_impl = None       # optional: (error value, current fn) -> name of the crate's From impl that `?` applies to the error
         self.bodies = bodies
         self.spec = spec
         self.entry = entry
@@ -85,7 +86,7 @@ class Machine:
         for i, a in enumerate(self.entry_args):
             locs[i + 1] = a
         h0 = frozenset(sp.closure({(sp.d.start, ())}))
-        st0 = (((self.entry, 0, 0, tuple(locs), None, None),), 0, (0, None), (), h0)
+        st0 = (((self.entry, 0, 0, tuple(locs), None, None, None),), 0, (0, None), (), h0)
         st0 = self.canon(st0)
         self.parent = {st0: None}
         self.edges = []
@@ -431,7 +432,7 @@ class Machine:
     def set_top(self, st, locs, bb, si):
         frames = st[0]
         fr = frames[-1]
-        return (frames[:-1] + ((fr[0], bb, si, tuple(locs), fr[4], fr[5]),),) + st[1:]
+        return (frames[:-1] + ((fr[0], bb, si, tuple(locs), fr[4], fr[5], fr[6]),),) + st[1:]
 
     def place_get(self, st, locs, place):
         v = locs[place['local']]
@@ -448,6 +449,8 @@ class Machine:
                     v = v[1][pr['i']]
                 elif v[0] == 'adt':
                     v = v[3][pr['i']]
+                elif v[0] == 'closure':
+                    v = v[2][pr['i']]
                 else:
                     raise Unsupported(f'field of {v[0]}')
             elif k == 'downcast':
@@ -482,7 +485,7 @@ class Machine:
 
     def step1(self, st):
         frames, F, rem, hist, hyps = st
-        fn, bb, si, locs, dest, ret_bb = frames[-1]
+        fn, bb, si, locs, dest, ret_bb, post = frames[-1]
         body = self.bodies[fn]
         block = body['blocks'][bb]
         locs = list(locs)
@@ -544,14 +547,27 @@ class Machine:
                 return []
             caller = frames[-2]
             cl = list(caller[3])
+            if post is not None:
+                # the frame is a closure run on behalf of a combinator: finish the combinator
+                if post[0] == 'some':
+                    rv = some(rv)
+                elif post[0] == 'err':
+                    rv = ('adt', 'std::result::Result', 1, (rv,))
+                elif post[0] == 'filter':
+                    if rv[0] != 'n' or rv[1] != 'abs':
+                        raise Unsupported('filter closure does not return a known bool')
+                    rv = some(post[1]) if rv[2] else NONE
             cl[dest] = rv
-            nf = frames[:-2] + ((caller[0], ret_bb, 0, tuple(cl), caller[4], caller[5]),)
+            nf = frames[:-2] + ((caller[0], ret_bb, 0, tuple(cl), caller[4], caller[5], caller[6]),)
             return [(nf,) + st[1:]]
         if k == 'call':
             name = t.get('resolved') or (t['func'].get('fn') or {}).get('path')
             args = [self.operand(st, locs, a) for a in t['args']]
             if t['dest']['proj']:
                 raise Unsupported('call destination is a projection')
+            comb = self.combinator(st, frames, name, args, t)
+            if comb is not None:
+                return comb
             if name in self.bodies and self.inline(name):
                 cb = self.bodies[name]
                 nl = [None] * len(cb['locals'])
@@ -561,7 +577,7 @@ class Machine:
                     nl[i + 1] = a
                 if len(frames) > 10:
                     raise Unsupported('call depth')
-                nf = frames + ((name, 0, 0, tuple(nl), t['dest']['local'], t['target']),)
+                nf = frames + ((name, 0, 0, tuple(nl), t['dest']['local'], t['target'], None),)
                 return [(nf,) + st[1:]]
             out = []
             for item in self.summary(st, locs, name, args, t):
@@ -578,6 +594,70 @@ class Machine:
         if k == 'drop':
             return [self.set_top(st, locs, t['target'], 0)]
         raise Unsupported(f'terminator {k}')
+
+    def combinator(self, st, frames, name, args, t):
+        """std combinators that take a closure of this crate: the closure body is run as a frame whose return value the combinator finishes"""
+        if name is None or not args:
+            return None
+        base = name.rsplit('::', 1)[-1]
+        clo = next((a for a in args[1:] if isinstance(a, tuple) and a and a[0] == 'closure'), None)
+        a0 = args[0]
+
+        def set_dest(val):
+            l2 = list(frames[-1][3])
+            l2[t['dest']['local']] = val
+            return [self.set_top(st, l2, t['target'], 0)]
+
+        def run_closure(cargs, post):
+            cb = self.bodies.get(clo[1])
+            if cb is None:
+                raise Unsupported('closure body not available: ' + clo[1])
+            nl = [None] * len(cb['locals'])
+            nl[1] = clo
+            for i, a in enumerate(cargs):
+                nl[2 + i] = a
+            if len(frames) > 10:
+                raise Unsupported('call depth')
+            return [(frames + ((clo[1], 0, 0, tuple(nl), t['dest']['local'], t['target'], post),),) + st[1:]]
+        is_opt = isinstance(a0, tuple) and a0 and a0[0] == 'adt' and a0[1] == 'Option'
+        if name.endswith('Option::<T>::map') and is_opt and clo is not None:
+            return set_dest(NONE) if a0[2] == 0 else run_closure([a0[3][0]], ('some',))
+        if name.endswith('Option::<T>::and_then') and is_opt and clo is not None:
+            return set_dest(NONE) if a0[2] == 0 else run_closure([a0[3][0]], None)
+        if name.endswith('Option::<T>::filter') and is_opt and clo is not None:
+            return set_dest(NONE) if a0[2] == 0 else run_closure([a0[3][0]], ('filter', a0[3][0]))
+        if name.endswith('Option::<T>::map_or') and is_opt and clo is not None and len(args) == 3:
+            return set_dest(args[1]) if a0[2] == 0 else run_closure([a0[3][0]], None)
+        if name.endswith('Option::<T>::is_some_and') and is_opt and clo is not None:
+            return set_dest(A0) if a0[2] == 0 else run_closure([a0[3][0]], None)
+        if name.endswith('Option::<T>::ok_or') and is_opt and len(args) == 2:
+            return set_dest(('adt', 'std::result::Result', 0, (a0[3][0],)) if a0[2] == 1 else ('adt', 'std::result::Result', 1, (args[1],)))
+        if name.endswith('Option::<T>::is_some') and is_opt:
+            return set_dest(N('abs', int(a0[2] == 1)))
+        if name.endswith('Option::<T>::is_none') and is_opt:
+            return set_dest(N('abs', int(a0[2] == 0)))
+        is_res = isinstance(a0, tuple) and a0 and a0[0] == 'adt' and a0[1] == 'std::result::Result'
+        if name.endswith('Result::<T, E>::map_err') and is_res and clo is not None:
+            return set_dest(a0) if a0[2] == 0 else run_closure([a0[3][0]], ('err',))
+        if name.endswith('Result::<T, E>::ok') and is_res:
+            return set_dest(some(a0[3][0]) if a0[2] == 0 else NONE)
+        if name.endswith('::from_residual') and is_res and a0[2] == 1:
+            # `?` on an Err: the error goes through the crate's From impl, when there is one for it
+            e = a0[3][0]
+            fi = self.from_impl(e, frames[-1][0]) if self.from_impl else None
+            if fi is None:
+                return set_dest(a0)
+            cb = self.bodies.get(fi)
+            if cb is None:
+                raise Unsupported('From impl not available: ' + fi)
+            nl = [None] * len(cb['locals'])
+            nl[1] = e
+            return [(frames + ((fi, 0, 0, tuple(nl), t['dest']['local'], t['target'], ('err',)),),) + st[1:]]
+        if name.endswith('<impl bool>::then') and clo is not None and a0[0] == 'n' and a0[1] == 'abs':
+            return run_closure([], ('some',)) if a0[2] else set_dest(NONE)
+        if name.endswith('<impl bool>::then_some') and a0[0] == 'n' and a0[1] == 'abs' and len(args) == 2:
+            return set_dest(some(args[1]) if a0[2] else NONE)
+        return None
 
     def rvalue(self, st, locs, rv):
         k = rv['k']
@@ -602,6 +682,10 @@ class Machine:
                 path = a['path']
                 path = {'std::option::Option': 'Option'}.get(path, path)
                 return [(('adt', path, a.get('variant', 0), tuple(ops)), st)]
+            if a['agg'] == 'closure':
+                if any(isinstance(o, tuple) and o and o[0] == 'ref' for o in ops):
+                    raise Unsupported('closure that captures a mutable reference to a local')
+                return [(('closure', a['path'], tuple(ops)), st)]
             raise Unsupported('aggregate ' + a['agg'])
         if k == 'binop':
             a = self.operand(st, locs, rv['a'])
@@ -724,6 +808,10 @@ class Machine:
             if a0[2] == 1:
                 return [(('adt', 'ControlFlow', 0, (a0[3][0],)), st)]
             return [(('adt', 'ControlFlow', 1, (NONE,)), st)]
+        if name.endswith('Try>::branch') and a0[0] == 'adt' and a0[1] == 'std::result::Result':
+            if a0[2] == 0:
+                return [(('adt', 'ControlFlow', 0, (a0[3][0],)), st)]
+            return [(('adt', 'ControlFlow', 1, (a0,)), st)]
         if 'FromResidual' in name and name.endswith('from_residual'):
             return [(NONE, st)]
         if (name.endswith('for str>::index') or name.endswith('Index<I> for [T]>::index')) and a0[0] == 'str' and args[1][0] == 'adt':
